@@ -171,14 +171,27 @@ def rule_seed(ctx):
     flow = Flow(fn, extra_pass=lambda t: t.get("callee_name") in ("iter", "map", "collect", "into_iter", "cloned") and (t.get("callee") or "").startswith(("core::", "alloc::")))
     ok = False
     site = None
-    for bi, t in fn.calls():
+    def hands_on(t):
+        """the call translates definitions: compile_def / compile_main, or a helper of fun2core that calls them"""
         if t.get("callee_name") in ("compile_def", "compile_main"):
+            return True
+        k2 = t.get("resolved_key") or (t.get("callee_key") if not t.get("callee_trait") else None)
+        g = fx.fns.get(k2)
+        if not g or g["crate"] != "fun2core" or "{" in k2:
+            return False
+        bodies = [g] + [h for hk, h in fx.fns.items() if (h.get("parent") or "").startswith(k2) and "{promoted" not in hk]
+        return any(b_["term"]["k"] == "call" and b_["term"].get("callee_name") in ("compile_def", "compile_main") for h in bodies for b_ in h["blocks"])
+    for bi, t in fn.calls():
+        if hands_on(t):
             site = t
-            a = t["args"][-1]
-            r = op_root(a)
-            for o in (flow.origins(r, ()) if r is not None else ()):
-                if o[0] == "arg" and o[2][:1] == ("defs",):
-                    ok = True
+            # the label set: the last argument of compile_def / compile_main, the set-typed argument of a helper
+            cands = [t["args"][-1]] if t.get("callee_name") in ("compile_def", "compile_main") else \
+                [a_ for a_ in t["args"] if op_root(a_) is not None and "HashSet" in fn.f["locals"][op_root(a_)]["ty"]]
+            for a in cands:
+                r = op_root(a)
+                for o in (flow.origins(r, ()) if r is not None else ()):
+                    if o[0] == "arg" and o[2][:1] == ("defs",):
+                        ok = True
     ikey = "fun2core::program::compile_prog:used_labels"
     if site is None:
         raise AnalysisError("R-SEED: compile_prog calls neither compile_def nor compile_main")
